@@ -142,7 +142,20 @@ static int vf_cmp_key(const void * a, const void * b, void * p)
     const struct vf_el * x = a, * y = b;
     (void)p;
     VF_ASSERT(!x->poisoned && !y->poisoned, "heap: the compare function is never given a cleared element");
-    return x->key - y->key;
+    /* only the SIGN of the result is specified.  Default: -1 / 0 / +1 (two children that both exceed
+     * their parent score the same); -DVF_CMP_MAG: the magnitude follows a fixed pattern over the calls
+     * (seeded change C07-2 compares magnitudes of two results and is invisible to a subtracting
+     * comparator, which the first version of this harness used) */
+#ifdef VF_CMP_MAG
+    {
+        static const int mag[4] = { 3, 1, 1, 2 };
+        static unsigned calls;
+        const int m = mag[calls++ % 4];
+        return x->key > y->key ? m : (x->key < y->key ? -m : 0);
+    }
+#else
+    return (x->key > y->key) - (x->key < y->key);
+#endif
 }
 
 static void vf_setup(void)
